@@ -428,12 +428,28 @@ type fileInfo struct {
 	node *Node
 }
 
-func (f fileInfo) Name() string       { return f.name }
-func (f fileInfo) Size() int64        { return f.size }
-func (f fileInfo) Mode() fs.FileMode  { return f.mode }
-func (f fileInfo) ModTime() time.Time { return time.Unix(1700000000, 0).UTC() }
-func (f fileInfo) IsDir() bool        { return f.mode.IsDir() }
-func (f fileInfo) Sys() any           { return nil }
+func (f fileInfo) Name() string      { return f.name }
+func (f fileInfo) Size() int64       { return f.size }
+func (f fileInfo) Mode() fs.FileMode { return f.mode }
+func (f fileInfo) ModTime() time.Time {
+	if MTimeSeed == 0 {
+		return time.Unix(1700000000, 0).UTC()
+	}
+	// a seeded time per file (name and size decide): which file was saved last is an accident
+	h := MTimeSeed
+	for i := 0; i < len(f.name); i++ {
+		h = (h ^ uint64(f.name[i])) * 1099511628211
+	}
+	h = (h ^ uint64(f.size)) * 1099511628211
+	return time.Unix(1600000000+int64(h%100000000), int64(h>>40)%1000000000).UTC()
+}
+
+// MTimeSeed selects the modification times the simulated disk reports: 0 = every file the same
+// instant; otherwise a seeded, different time per file.
+var MTimeSeed uint64
+
+func (f fileInfo) IsDir() bool { return f.mode.IsDir() }
+func (f fileInfo) Sys() any    { return nil }
 
 func infoOf(name string, n *Node) fs.FileInfo {
 	fi := fileInfo{name: filepath.Base(name), node: n}
